@@ -3,7 +3,7 @@ symbolic branch whose both sides are feasible queues the other side."""
 import time
 import traceback
 
-from .core import Ctx, PathEnd, PyRaise
+from .core import Ctx, PathEnd, PyRaise, ReplayDivergence
 from .interp import Interp
 from .sym import Unsupported
 
@@ -49,6 +49,7 @@ def explore(program, name, driver, setup=None, timeout_ms=20000, max_paths=4000,
         if setup is not None:
             setup(it)
         pr = PathResult()
+        pr.prefix = list(prefix)
         try:
             pr.outcome = driver(it)
         except PathEnd:
@@ -57,6 +58,9 @@ def explore(program, name, driver, setup=None, timeout_ms=20000, max_paths=4000,
             pr.outcome = "unsupported"
             pr.unsupported = str(e)
             res.unsupported.append(str(e))
+        except ReplayDivergence as e:
+            pr.outcome = "replay-divergence"
+            res.error = "replay divergence in %s: %s" % (name, e)
         except RecursionError:
             pr.outcome = "unsupported"
             pr.unsupported = "recursion limit"
